@@ -41,7 +41,7 @@ ASSUMPTIONS = [
     "bounds-only invalidity of the converted plan and ttsem's don't-care classes are excluded",
 ]
 SHARD_TIMEOUT = {"quick": 600, "thorough": 5400}
-BOUNDS = {"quick": dict(n=800, K=3, plans=8, nodes=150, max_inst=12), "thorough": dict(n=10000, K=4, plans=20, nodes=600, max_inst=16)}
+BOUNDS = {"quick": dict(n=600, K=3, plans=8, nodes=150, max_inst=12), "thorough": dict(n=10000, K=4, plans=20, nodes=600, max_inst=16)}
 PROFILE = dict(
     t2s=True,
     cond_effects=False,
